@@ -68,6 +68,7 @@ def run(ctx, br, profiles=None, prop=None):
         "trace_steps_validated": sum(v for v in verdicts if v >= 0),
         "judge_mismatches": mism,
         "oracle_failures": bad,
+        "hangs_not_reproduced_with_5x_patience": rc.HANGS_NOT_REPRODUCED,
         "event_kind_histogram": {str(k): v for k, v in sorted(kinds.items())},
         "duplicate_arrivals": dup, "unknown_opid_arrivals": unknown, "late_arrivals": late, "dropped_duplicates": drops,
         "samples": [{"schedule": reqs[0], "events": resps[0].get("events")[:25]}],
